@@ -280,7 +280,7 @@ func TestC17(t *testing.T) {
 		return
 	}
 	nrand := kit.Pick(4, 20)
-	r.Rapid("valid", kit.Pick(500, 20000), func(rt *rapid.T) {
+	r.Rapid("valid", kit.Pick(2500, 40000), func(rt *rapid.T) {
 		st := gen.TypedSchema().Draw(rt, "schema")
 		if rapid.IntRange(0, 3).Draw(rt, "extendbuiltin") == 0 {
 			gen.ExtendBuiltin(rt, &st)
@@ -304,7 +304,7 @@ func TestC17(t *testing.T) {
 			r.Failf(rt, "valid", c, "%s", v)
 		}
 	})
-	r.Rapid("fault", kit.Pick(700, 20000), func(rt *rapid.T) {
+	r.Rapid("fault", kit.Pick(3500, 40000), func(rt *rapid.T) {
 		st := gen.TypedSchema().Draw(rt, "schema")
 		f, ok := gen.ApplySchemaFault(rt, &st, rapid.IntRange(0, gen.NumSchemaFaults()-1).Draw(rt, "fault"))
 		if !ok {
